@@ -309,6 +309,49 @@ def run(tier, seed, replay=None):
                     ref = zs(t1, t2, dele, ins, ren)
                     if abs(ref - x["d12"]) > 1e-6 * (x["n1"] + x["n2"]):
                         report(pi, m, "implementation %r, independent Zhang-Shasha reference %r" % (x["d12"], ref))
+    # --- true minimum over edit SCRIPTS: a script may relabel a node and then delete it, so for a cost model that violates the
+    # triangle inequality the minimum script cost is the mapping distance under the METRIC CLOSURE of the costs (over the label pool:
+    # an upper bound of the true minimum).  If that is strictly below pyscn's distance, pyscn does not report the minimum.
+    nclos = 200 if tier == "quick" else 2000
+    clos_pairs = []
+    for _ in range(nclos):
+        labels = rng.sample(POOL, rng.randint(2, 5))
+        t1 = rand_tree(rng, rng.randint(1, 6), labels)
+        t2 = mutate(rng, t1, labels) if rng.random() < 0.7 else rand_tree(rng, rng.randint(1, 6), labels)
+        clos_pairs.append((t1, t2))
+    clos_pairs.append((("Name(x)", (("FunctionDef(f)", ()),)), ("Name(x)", ())))
+    cgo = C.harness_batch("ted", [{"T1": preorder(a, []), "T2": preorder(b, []), "Labels": sorted(set(POOL) | set(labels_of(a, b)))} for a, b in clos_pairs])
+    hist["closure_pairs"] = len(clos_pairs)
+    hist["non_metric_hits"] = {}
+    for (t1, t2), r in zip(clos_pairs, cgo):
+        if "error" in r:
+            continue
+        labels = sorted(set(POOL) | set(labels_of(t1, t2)))
+        for m in MODELS:
+            x = r[m]
+            L = len(labels)
+            ren = [row[:] for row in x["ren"]]
+            for k in range(L):
+                for i in range(L):
+                    for j in range(L):
+                        if ren[i][k] + ren[k][j] < ren[i][j]:
+                            ren[i][j] = ren[i][k] + ren[k][j]
+            dele = [min(ren[i][j] + x["del"][j] for j in range(L)) for i in range(L)]
+            ins = [min(x["ins"][i] + ren[i][j] for i in range(L)) for j in range(L)]
+            dd = dict(zip(labels, dele))
+            ii = dict(zip(labels, ins))
+            rr = {(a, b): ren[i][j] for i, a in enumerate(labels) for j, b in enumerate(labels)}
+            best = zs(t1, t2, dd, ii, rr)
+            if best < x["d12"] - 1e-6:
+                sig = {"kind": "non-metric-cost-model", "cost_model": m}
+                k = C.classify(PID, sig)
+                hist["non_metric_hits"][m] = hist["non_metric_hits"].get(m, 0) + 1
+                if k:
+                    res.known_finding(k, "(e.g. %s vs %s under `%s`: pyscn %.3f, an edit script of cost %.3f exists)" % (show(t1), show(t2), m, x["d12"], best))
+                else:
+                    res.violation("C07 fails (%s cost model): pyscn reports distance %.3f but an edit script of cost %.3f exists (relabel-then-delete "
+                                  "is cheaper than delete: the cost model violates the triangle inequality)" % (m, x["d12"], best),
+                                  {"signature": sig, "t1": t1, "t2": t2, "cost_model": m, "impl": x["d12"], "script_cost_upper_bound": best})
     if not ps.ok and not any(f for _, _, f in res.violations):
         res.violation("proof obligation or tie broken: " + "; ".join(ps.broken)[:1500],
                       {"broken": ps.broken, "note": "no tree pair on which the implementation violates C07 was found in %d pairs" % len(pairs)},
@@ -326,6 +369,10 @@ def run(tier, seed, replay=None):
         "distribution": hist,
     })
     return res.finish("proof")
+
+
+def show(t):
+    return t[0] + ("(" + ",".join(show(c) for c in t[1]) + ")" if t[1] else "")
 
 
 def tt(x):
